@@ -8,8 +8,13 @@
      c<ctx>.<pid>  compile      s<ctx>.<pid>  start a run     t<ctx>  one statement step
      r<ctx>        steps of <ctx> until its run has ended (at most 100000)
      k<src>.<dst>  clone        p<ctx>  purge                 f<ctx>  free
-  Answer: `model=<ctx 0>#<ctx 1>#…#<ctx 15> err=<recorded error code|->` where a context is `-` (does
-  not exist) or `<running 0|1>~<result>~<hex output>~<name:V;…>`; result = `none` (no run ended yet),
+     b<ctx>  bloc_break         u<ctx>  bloc_reset_stop       g<ctx>.<0|1>  trusted     v<ctx>.<0|1>  trace
+  The operations go through `World.applyL` (= `World.apply` on the world, `applyL_world`), which also
+  records against which table each program was compiled and whether every `start` was linked.
+  Answer: `model=<ctx 0>#<ctx 1>#…#<ctx 15> err=<recorded error code|-> linked=<0|1> wf=<0|1 per program>`
+  (`wf`: `World.wfDecls [] prog`, the checkable hypothesis of `world_run_eq_runProgram_wf`) where a context is
+  `-` (does not exist) or `<running 0|1>~<result>~<hex output>~<name:V;…>~<trusted><trace><stop pending>~<NAME/arity,…>`
+  (function table in table order); result = `none` (no run ended yet),
   `ok-`, `ok+<V>`, `rerr+<code>[+<hexarg>]`, `oof`, `hazard+<h>`, `unmodelled` (spaces written as `+`).
 -/
 import BlocV.Model.World
@@ -32,6 +37,10 @@ def parseOp (s : String) : Option (List Op) :=
   | 't' => rest.toNat?.map fun c => [Op.step c]
   | 'p' => rest.toNat?.map fun c => [Op.purge c]
   | 'f' => rest.toNat?.map fun c => [Op.free c]
+  | 'b' => rest.toNat?.map fun c => [Op.host c .brk]
+  | 'u' => rest.toNat?.map fun c => [Op.host c .resetStop]
+  | 'g' => two.map fun (c, b) => [Op.host c (.trusted (b != 0))]
+  | 'v' => two.map fun (c, b) => [Op.host c (.trace (b != 0))]
   | _ => none
 
 /-- steps of `c` until its run has ended -/
@@ -42,9 +51,9 @@ def runOut (w : World) (c : CtxId) : Nat → World
     | some x => if x.running then runOut (World.step w c) c n else w
     | none => w
 
-def applyWord (w : World) (s : String) : Option World :=
-  if s.front == 'r' then (s.drop 1).toString.toNat?.map fun c => runOut w c 100000
-  else (parseOp s).map fun ops => World.run w ops
+def applyWord (lw : LWorld) (s : String) : Option LWorld :=
+  if s.front == 'r' then (s.drop 1).toString.toNat?.map fun c => { lw with w := runOut lw.w c 100000 }
+  else (parseOp s).map fun ops => World.runL lw ops
 
 def plus (s : String) : String := s.replace " " "+"
 
@@ -60,7 +69,9 @@ def ctxStr : Option Ctx → String
   | none => "-"
   | some x =>
     (if x.running then "1" else "0") ++ "~" ++ resultStr x.result ++ "~" ++ hexOfBytes x.st.output ++ "~" ++
-      ";".intercalate (x.st.vars.map fun (n, v) => n ++ ":" ++ valStr v)
+      ";".intercalate (x.st.vars.map fun (n, v) => n ++ ":" ++ valStr v) ++ "~" ++
+      (if x.trusted then "1" else "0") ++ (if x.trace then "1" else "0") ++ (if x.retPending then "1" else "0") ++ "~" ++
+      ",".intercalate ((sigs x.funcs).map fun (n, a) => n ++ "/" ++ toString a)
 
 def handle (words : List String) : Option String :=
   match words with
@@ -69,15 +80,18 @@ def handle (words : List String) : Option String :=
     match progs with
     | none => some "bad-prog"
     | some ps =>
-      let w0 := initWorld ps (fuel.toNat?.getD 100000)
-      let wf := (ops.splitOn ",").foldl (fun (ow : Option World) s => ow.bind fun w => applyWord w s) (some w0)
+      let w0 := initLWorld ps (fuel.toNat?.getD 100000)
+      let wf := (ops.splitOn ",").foldl (fun (ow : Option LWorld) s => ow.bind fun w => applyWord w s) (some w0)
       match wf with
       | none => some "bad-op"
-      | some w =>
+      | some lw =>
+        let w := lw.w
         let err := match w.shared .errorRecord with
           | .lastError (some (c, _)) => toString c
           | _ => "-"
-        some ("model=" ++ "#".intercalate ((List.range 16).map fun c => ctxStr (w.ctxs c)) ++ " err=" ++ err)
+        some ("model=" ++ "#".intercalate ((List.range 16).map fun c => ctxStr (w.ctxs c)) ++ " err=" ++ err ++
+          " linked=" ++ (if lw.linkedAll then "1" else "0") ++
+          " wf=" ++ String.join (ps.map fun p => if wfDecls [] p then "1" else "0"))
   | _ => none
 
 end BlocV.DrvC14
